@@ -24,6 +24,51 @@ structure DS where
   s : State := {}
   u : Univ := {}
 
+/-- A finite table standing for a total map.  A function-valued definition is compiled with its lookup
+argument as an extra parameter, so a "function built from a table" would rebuild the table on every lookup;
+the table is therefore a first-order VALUE, computed once, and only `Table.fn` is a closure over it. -/
+structure Table (β : Type) where
+  t : List (Nat × β)
+
+@[noinline] def mkTable {β : Type} (keys : List Nat) (f : Nat → β) : Table β := ⟨keys.map fun k => (k, f k)⟩
+
+def Table.fn {β : Type} (t : Table β) (dflt : β) : Nat → β :=
+  fun i => match t.t.lookup i with
+    | some x => x
+    | none => dflt
+
+def normObj (u : Univ) (o : Obj) : Obj :=
+  let st := mkTable u.keys o.storage
+  let cm := mkTable u.keys o.committed
+  let ts := mkTable u.keys o.trieStorage
+  { o with storage := st.fn 0, committed := cm.fn 0, trieStorage := ts.fn 0 }
+
+def normLeaf (u : Univ) (l : Leaf) : Leaf :=
+  let st := mkTable u.keys l.storage
+  { l with storage := st.fn 0 }
+
+/-- Re-tabulate every total map over the finite universe the harness uses.  Semantically the identity on
+the universe; it only keeps the closure chains of the function-valued model fields short (speed). -/
+def normalize (u : Univ) (s : State) : State :=
+  let objs := mkTable u.accs fun a => (s.a.objs a).map (normObj u)
+  let logs := mkTable u.hashes s.a.logs
+  let pre := mkTable u.hashes s.a.preimages
+  let extra := mkTable u.accs s.a.extra
+  let pending := mkTable u.accs s.a.pending
+  let dirtyObjs := mkTable u.accs s.a.dirtyObjs
+  let trie := mkTable u.accs fun a => (s.a.trie a).map (normLeaf u)
+  let vals := mkTable u.vals s.v.vals
+  let index := mkTable u.vals s.v.index
+  let stat := mkTable (List.range 6) s.v.stat
+  let trieVals := mkTable u.vals s.v.trieVals
+  let trieIndex := mkTable u.vals s.v.trieIndex
+  let trieStat := mkTable (List.range 6) s.v.trieStat
+  { s with
+    a := { s.a with objs := objs.fn none, logs := logs.fn [], preimages := pre.fn none, extra := extra.fn 0,
+                    pending := pending.fn false, dirtyObjs := dirtyObjs.fn false, trie := trie.fn none }
+    v := { s.v with vals := vals.fn none, index := index.fn false, stat := stat.fn {}, trieVals := trieVals.fn none,
+                    trieIndex := trieIndex.fn false, trieStat := trieStat.fn {} } }
+
 def natList? (s : String) : Option (List Nat) :=
   if s == "-" then some [] else (s.splitOn ",").mapM nat?
 
@@ -121,7 +166,7 @@ def stepLine (ds : DS) (line : String) : DS × String :=
       | none => (ds, "ok")
       | some old =>
         match step ds.s (.val (.update a { old with role := r, status := st, token := t, stake := sk, misc := m })) with
-        | some s' => ({ ds with s := s' }, "ok")
+        | some s' => ({ ds with s := normalize ds.u s' }, "ok")
         | none => (ds, "crash")
     | _, _, _, _, _, _ => (ds, "bad-op")
   | f =>
@@ -133,6 +178,6 @@ def stepLine (ds : DS) (line : String) : DS × String :=
       | some s' =>
         match op with
         | .snapshot => ({ ds with s := s' }, s!"ok {ds.s.nextId}")
-        | _ => ({ ds with s := s' }, "ok")
+        | _ => ({ ds with s := normalize ds.u s' }, "ok")
 
 def main : IO Unit := runLoop ({} : DS) stepLine
